@@ -10,6 +10,7 @@ import (
 
 // Gen draws everything a run needs from one PRNG.
 type Gen struct {
+	focusShare bool
 	r    *rand.Rand
 	big  bool // thorough tier: larger inputs in the mix
 	pool []PoolEntry
@@ -280,6 +281,80 @@ func (g *Gen) pathSet64(open bool, small bool) clip.Paths64 {
 	return out
 }
 
+// manySet: a set of 64..400 small polygons (size thresholds of batch code
+// paths are only crossed by inputs like this one).
+func (g *Gen) manySet() clip.Paths64 {
+	S := g.pal.S
+	n := g.rng(64, 400)
+	if g.p(0.5) {
+		n = g.rng(64, 160)
+	}
+	cols := int(math.Ceil(math.Sqrt(float64(n))))
+	cell := math.Max(4, math.Floor(2*S/float64(cols+1)))
+	out := make(clip.Paths64, 0, n)
+	overlap := g.f(0.3, 0.7)
+	if g.p(0.3) {
+		overlap = g.f(0.9, 1.3) // touching / overlapping neighbours
+	}
+	for i := 0; i < n; i++ {
+		cx := -S + cell*float64(i%cols+1)
+		cy := -S + cell*float64(i/cols+1)
+		h := cell * overlap / 2
+		var p clip.Path64
+		switch g.n(3) {
+		case 0:
+			p = clip.Path64{{X: rnd(cx - h), Y: rnd(cy - h)}, {X: rnd(cx + h), Y: rnd(cy - h)}, {X: rnd(cx + h), Y: rnd(cy + h)}, {X: rnd(cx - h), Y: rnd(cy + h)}}
+		case 1:
+			p = clip.Path64{{X: rnd(cx - h), Y: rnd(cy - h)}, {X: rnd(cx + h), Y: rnd(cy)}, {X: rnd(cx), Y: rnd(cy + h)}}
+		default:
+			p = clip.Path64{{X: rnd(cx), Y: rnd(cy - h)}, {X: rnd(cx + h), Y: rnd(cy)}, {X: rnd(cx), Y: rnd(cy + h)}, {X: rnd(cx - h), Y: rnd(cy)}}
+		}
+		out = append(out, g.maybeReverse(p))
+	}
+	return out
+}
+
+// longSet: one or two paths with 64..400 vertices.
+func (g *Gen) longSet() clip.Paths64 {
+	var out clip.Paths64
+	for i, n := 0, g.rng(1, 2); i < n; i++ {
+		nv := g.rng(64, 400)
+		switch g.n(3) {
+		case 0:
+			out = append(out, g.famRadial(nv&^1, 1))
+		case 1:
+			out = append(out, g.famRadial(nv, 2))
+		default:
+			out = append(out, g.famComb(nv/2))
+		}
+	}
+	return out
+}
+
+func (g *Gen) addPoolSet(p clip.Paths64, isD bool) int {
+	slack := 0
+	if g.p(0.5) {
+		slack = g.rng(1, 4)
+	}
+	if !isD {
+		g.pool = append(g.pool, PoolEntry{P64: flat64(p), Slack: slack})
+		g.meta = append(g.meta, entryMeta{})
+		return len(g.pool) - 1
+	}
+	div := g.pal.ddiv
+	pd := make([][]float64, len(p))
+	for i, path := range p {
+		f := make([]float64, 0, 2*len(path))
+		for _, pt := range path {
+			f = append(f, float64(pt.X)/div, float64(pt.Y)/div)
+		}
+		pd[i] = f
+	}
+	g.pool = append(g.pool, PoolEntry{PD: pd, IsD: true, Slack: slack})
+	g.meta = append(g.meta, entryMeta{isD: true})
+	return len(g.pool) - 1
+}
+
 func (g *Gen) addPool64(open, small bool) int {
 	p := g.pathSet64(open, small)
 	slack := 0
@@ -332,6 +407,13 @@ func (g *Gen) initPool() {
 	}
 	g.addPoolD(true, false)
 	g.addPoolD(false, true)
+	// now and then: inputs that cross the size thresholds of batch code paths
+	if g.p(0.3) {
+		g.addPoolSet(g.manySet(), g.p(0.4))
+	}
+	if g.p(0.3) {
+		g.addPoolSet(g.longSet(), g.p(0.4))
+	}
 }
 
 func (g *Gen) pick(isD bool, open int, small int) int {
@@ -788,4 +870,58 @@ func (g *Gen) taskScript(nObj, nFn int, c12 bool) []Op {
 		seqs = append(seqs, fns)
 	}
 	return g.interleave(seqs)
+}
+
+// focusKind picks the kind of call a focused run concentrates on.
+func (g *Gen) focusKind() string {
+	kinds := []string{"InflatePaths64", "InflatePaths64", "InflatePathsD", "history:co", "SimplifyPath64", "SimplifyPathD", "SimplifyPaths64",
+		"TrimCollinear64", "TrimCollinearD", "RectClipPaths64", "RectClipLinesPaths64", "RectClipPathsD", "MinkowskiSum64", "MinkowskiSumD",
+		"BooleanOpPaths64", "BooleanOpPathsD", "BooleanOpPolyTree64", "Scale64", "ScaleD", "Translate64", "Ellipse64", "Area64", "StripDuplicates", "ReversePath", "PointInPolygon"}
+	if g.p(0.25) {
+		return fnOps[g.n(len(fnOps))].name
+	}
+	return kinds[g.n(len(kinds))]
+}
+
+// focusOps returns one call (or one short object life) of the given kind.
+func (g *Gen) focusOps(kind string, slot int) []Op {
+	if kind == "history:co" {
+		return g.offsetHistory(slot, false)
+	}
+	op := g.fnOpNamed(kind)
+	// with some probability all focus calls of a run work on the same, largest
+	// input of the right type (shared read-only input; size thresholds)
+	if g.focusShare && len(op.A) > 0 && op.A[0] >= 0 && op.A[0] < len(g.meta) {
+		wantD := g.meta[op.A[0]].isD
+		best, bestN := -1, -1
+		for i, e := range g.pool {
+			if e.IsD != wantD {
+				continue
+			}
+			n := 0
+			for _, p := range e.P64 {
+				n += len(p)
+			}
+			for _, p := range e.PD {
+				n += len(p)
+			}
+			if n > bestN {
+				best, bestN = i, n
+			}
+		}
+		if best >= 0 {
+			op.A[0] = best
+		}
+	}
+	switch kind {
+	case "InflatePaths64", "InflatePathsD":
+		if g.p(0.6) && len(op.I) > 1 {
+			op.I[0] = 3 // Round joins: the arc parameters are the part calls can disagree on
+			if len(op.F) > 2 && g.p(0.7) {
+				op.F[2] = g.arcTol(op.F[0])
+				op.I[2] |= 2
+			}
+		}
+	}
+	return []Op{op}
 }
